@@ -13,6 +13,8 @@ Cases == {[Blank EXCEPT !.kind = "dlog", !.blk = b, !.others = o, !.odd = d, !.r
          \cup {[Blank EXCEPT !.kind = "yside", !.n = (IF Tier = "quick" THEN 40 ELSE 2000), !.rep = r] : r \in 1 .. Reps}
          \* histories: a value, then a different value with the same limb xor / sum / one limb / limb multiset (canonical and stored words)
          \cup {[Blank EXCEPT !.kind = "relatives", !.n = (IF Tier = "quick" THEN 6 ELSE 120), !.rep = r] : r \in 1 .. Reps}
+         \* values chosen by their stored (Montgomery) words: all 81 limb patterns over {0, 1, random}, as root inputs, squared, and as the ratio behind an x-coordinate
+         \cup {[Blank EXCEPT !.kind = "stored", !.rep = r] : r \in 1 .. Reps}
          \cup {[Blank EXCEPT !.kind = "tables"]}
 VARIABLE done
 Init == done = FALSE
